@@ -182,6 +182,9 @@ Definition c15_spec (runs e2es : list qout) (status : Z) (found : list Z) (resni
 Definition d_keys (l : list sx) : option (list (list str)) :=
   dlist (fun s => match s with L ks => dlist sx_bytes ks | _ => None end) l.
 
+Fixpoint zlist_same (a b : list Z) : bool :=
+  match a, b with [], [] => true | x :: a', y :: b' => (x =? y)%Z && zlist_same a' b' | _, _ => false end.
+
 Definition check_doc (prop : Z) (inp impl : sx) : sx :=
   match inp, impl with
   | L [A 2; L [A frd; A fsk; A fpb]; L runs; L e2es; L rv; L [A pubok; pubtext]; A unit_],
@@ -198,6 +201,9 @@ Definition check_doc (prop : Z) (inp impl : sx) : sx :=
             if (prop =? 16) && (status =? 2) then [16; 7]          (* the finished document does not serialise to JSON at all *)
             else if (status =? 0) && (match o with None => true | Some _ => false end) then [99]
             else if prop =? 15 then (if c15_spec runs e2es status found (negb (resnil =? 0)) o then [] else [15])
+            (* C07 at the request: the result is a function of the per-run outcomes alone (no run or sample appears or
+               disappears with the schedule: cancellation instants, completion order) *)
+            else if (prop =? 7) && negb (c15_spec runs e2es status found (negb (resnil =? 0)) o) then [7; 3]
             else match o with
                  | None => []
                  | Some d =>
@@ -212,6 +218,9 @@ Definition check_doc (prop : Z) (inp impl : sx) : sx :=
                            else if negb (all2 (fun (r : rund) (ob : irun) => c17_against unit_ (rd_hops r) (ir_hops ob)) (m_runs m) (i_runs d)) then [17; 2] else [])
                         else [])
                      else if prop =? 18 then (if c18_doc (f_rdns fl) rv d then [] else [18])
+                     (* C03 at the document: every run keeps one entry per TTL of the run it came from (same count, same TTLs) *)
+                     else if prop =? 3 then
+                       (if all2 (fun (r : rund) (ob : irun) => zlist_same (map hd_ttl (rd_hops r)) (map ih_ttl (ir_hops ob))) (m_runs m) (i_runs d) then [] else [3; 2])
                      (* C05: an end-to-end sample of 0 means "no answer", never a 0 ms round trip: the e2e statistics are over the answered probes *)
                      else if prop =? 5 then (if c16_e2e d then [] else [5; 3])
                      else []
